@@ -74,6 +74,21 @@ func genC07(t *rapid.T) *c07Scenario {
 			sc.FireAfter = sc.InBacklog
 		}
 	}
+	if !sc.RateLimit && rapid.IntRange(0, 9).Draw(t, "wedged_family") == 3 {
+		// the family in which everything is stuck at once: the server has stopped reading, handlers emit
+		// more than the output queue holds, so the event loop is blocked in a send when the disconnect
+		// (each cause in turn) arrives
+		sc.ServerReads = "none"
+		sc.HandlerEmits = rapid.SampledFrom([]int{3, 10}).Draw(t, "wedged_emits")
+		if sc.InBacklog < 30 {
+			sc.InBacklog, sc.InSegments = 40+rapid.IntRange(0, 9).Draw(t, "wedged_backlog"), rapid.SampledFrom([]int{1, 3}).Draw(t, "wedged_segments")
+		}
+		sc.FireAfter = 1
+		sc.UserSenders = 0 // the handlers alone fill the queue; blocked user goroutines only cost clean-up time
+		if sc.Cycles > 2 {
+			sc.Cycles = 2
+		}
+	}
 	if sc.RateLimit {
 		if sc.Cycles > envInt("VERIF_C07_RL_CYCLES", 1) {
 			sc.Cycles = envInt("VERIF_C07_RL_CYCLES", 1)
